@@ -158,9 +158,9 @@ func setupGate() (*gateEnv, error) {
 
 	lk := func(string) *route.Target { return e.lookup() }
 	for name, hd := range map[string]tcp.Handler{
-		"tcp": &tcp.Proxy{Lookup: lk, DialTimeout: 2 * time.Second},
-		"sni": &tcp.SNIProxy{Lookup: lk, DialTimeout: 2 * time.Second},
-		"dyn": &tcp.DynamicProxy{Lookup: lk, DialTimeout: 2 * time.Second},
+		"tcp": &tcp.Proxy{Lookup: lk, DialTimeout: 10 * time.Second},
+		"sni": &tcp.SNIProxy{Lookup: lk, DialTimeout: 10 * time.Second},
+		"dyn": &tcp.DynamicProxy{Lookup: lk, DialTimeout: 10 * time.Second},
 	} {
 		l, port, err := listenAny()
 		if err != nil {
@@ -188,6 +188,22 @@ func setupGate() (*gateEnv, error) {
 	}
 	time.Sleep(50 * time.Millisecond) // let the probe connection (no route yet) drain
 	return e, nil
+}
+
+// dialClient connects the harness' own client to one of the local listeners. The connect carries no meaning for the
+// property; on a loaded machine a SYN may wait for the accept loop, so a timeout is retried with a longer one.
+func dialClient(addr string) (net.Conn, error) {
+	var c net.Conn
+	var err error
+	for _, to := range []time.Duration{2 * time.Second, 5 * time.Second, 15 * time.Second} {
+		if c, err = net.DialTimeout("tcp", addr, to); err == nil {
+			return c, nil
+		}
+		if ne, ok := err.(net.Error); !ok || !ne.Timeout() {
+			return nil, err
+		}
+	}
+	return nil, err
 }
 
 func (e *gateEnv) dialAddr(via, proto string) string {
@@ -260,12 +276,12 @@ func runGate(raw json.RawMessage) (interface{}, error) {
 
 	before := e.hits.Load()
 	addr := e.dialAddr(in.Via, in.Proto)
-	c, err := net.DialTimeout("tcp", addr, 2*time.Second)
+	c, err := dialClient(addr)
 	if err != nil {
 		return nil, fmt.Errorf("dial proxy %s: %v", addr, err)
 	}
 	defer c.Close()
-	c.SetDeadline(time.Now().Add(5 * time.Second))
+	c.SetDeadline(time.Now().Add(20 * time.Second))
 	peer := c.LocalAddr().String()
 	var extra http.Header
 	switch in.Kind {
